@@ -131,6 +131,7 @@ def gen_world(r, knobs=None):
     n_pipes = r.randint(*k['n_pipes'])
     # ns-less closure per pipeline (set of pipeline ids reachable through ns-less slots, incl. itself)
     closure = []
+    single_cfg = set()
     reach = []  # per pipeline: list of (rel_ns, pipe) reachable (incl. ('', self))
     for pi in range(n_pipes):
         slots = []
@@ -153,7 +154,11 @@ def gen_world(r, knobs=None):
                     rch += [(A.join_ns(ns, rel) or '', q) for rel, q in reach[pj]]
                 else:
                     if closure[pj] & clos:
-                        continue
+                        # diamond: a pipeline reached twice in one namespace; legal when both routes lead to the very same
+                        # config, which is guaranteed by giving the shared pipelines exactly one config
+                        if r.random() < 0.5:
+                            continue
+                        single_cfg.update(closure[pj] & clos)
                     # also every namespaced mount below must stay unique: reach rel-ns names are unique per slot, fine
                     slots.append({'pipe': pj, 'ns': None})
                     clos |= closure[pj]
@@ -194,7 +199,7 @@ def gen_world(r, knobs=None):
                 if len(pool) < 2:
                     fam = 'int'
                     pool = distinct_pool(r, 'int', 3)
-                p = {'name': f'q{cid}x{j}', 'family': fam, 'pool': pool, 'default': A.NO_DEFAULT, 'ignore': False, 'dpd': False, 'nic': None}
+                p = {'name': f'q{cid}x{j}', 'family': fam, 'pool': pool, 'default': A.NO_DEFAULT, 'ignore': False, 'dpd': False, 'nic': None, 'dtype': None}
                 t = r.random()
                 if t < 0.5:
                     p['default'] = {'v': pool[0]}
@@ -203,6 +208,11 @@ def gen_world(r, knobs=None):
                     p['ignore'] = True
                 if r.random() < 0.15:
                     p['nic'] = f'cfg_{p["name"]}'
+                if fam in ('int', 'str', 'float', 'bool', 'list', 'dict') and r.random() < 0.3:
+                    p['dtype'] = fam
+                if fam == 'str' and r.random() < 0.15:
+                    p['dtype'] = 'Path'
+                    p['dpd'] = False
                 if fam == 'placeholder':
                     p['placeholder'] = True
                     p['dpd'] = False
@@ -246,6 +256,15 @@ def gen_world(r, knobs=None):
                 if k['optional_inputs'] and r.random() < 0.15:
                     inp['optional'] = True
                 inputs.append(inp)
+            if k['patterns'] and style != 'index' and r.random() < 0.3:
+                # `~pattern` input: one declaration expanding to several tasks of the own namespace (group-less ones: A3)
+                pats = [i_ for i_ in inputs if i_['rel'] == '' and not i_['optional'] and ':' not in classes[i_['cls']]['slug']]
+                if pats:
+                    pats = pats[: r.choice([1, 2, 3])]
+                    pat = '(' + '|'.join(classes[i_['cls']]['slug'] for i_ in pats) + ')' if len(pats) > 1 or r.random() < 0.5 else classes[pats[0]['cls']]['slug']
+                    for i_ in pats:
+                        i_['form'] = 'pattern'
+                        i_['pattern'] = pat
             if k['optional_inputs'] and r.random() < 0.1:
                 inputs.append({'cls': None, 'rel': '', 'form': 'slug', 'optional': 'absent', 'name': 'missing_' + name})
             # required (non-optional) inputs come first in Meta.input_tasks; optional ones are InputTaskParameters
@@ -264,7 +283,7 @@ def gen_world(r, knobs=None):
     configs = []
     cfg_of_pipe = {pi: [] for pi in range(n_pipes)}
     for pi in range(n_pipes):
-        for v in range(r.choice([1, 1, 2, 3])):
+        for v in range(r.choice([1, 1, 2, 3]) if pi not in single_cfg else 1):
             vals = {}
             for cid in pipelines[pi]['classes']:
                 for p in classes[cid]['params']:
